@@ -154,6 +154,20 @@ Proof.
   intros Hok r tx d Eph. specialize (H Hok). unfold timer_due in H. rewrite Eph in H. apply N.leb_gt in H. exact H.
 Qed.
 
+
+(* the step-indexed run used for rendering is run_eager with one more label per output *)
+Lemma run_eager_ix_erase : forall es i s,
+  let '(s1, o1, ok1) := run_eager_ix cfg i s es in
+  let '(s2, o2, ok2) := run_eager cfg s es in
+  s1 = s2 /\ map (fun x => (fst (fst x), snd x)) o1 = o2 /\ ok1 = ok2.
+Proof.
+  induction es as [|e es IH]; intros i s; cbn [run_eager_ix run_eager]; [auto|].
+  destruct (step cfg s e) as [s1 o1]. destruct (saturate cfg (fuel_for s1) s1) as [[s2 o2] ok2].
+  specialize (IH (S i) s2). destruct (run_eager_ix cfg (S i) s2 es) as [[s3 o3] ok3]. destruct (run_eager cfg s2 es) as [[s4 o4] ok4].
+  destruct IH as (-> & <- & ->). repeat split. rewrite map_app, app_assoc. f_equal.
+  unfold stamp_ix. rewrite map_map. erewrite map_ext; [apply map_id|]. intros [t x]. reflexivity.
+Qed.
+
 End Task.
 
 (* the timer instant: with resolution 1 it is the deadline itself; in general the first multiple of
